@@ -25,8 +25,8 @@ func mergeKeys(en *Env, n int, big bool) *h.Keys {
 	r := en.R
 	lens := []int{1, 2, 5, 9, 63, 64, 127, 128, 129, 255, 300}
 	if big {
-		// a few very long keys: the hint file (one entry per live key) then spans several 32 KiB blocks
-		lens = []int{5, 64, 300, 9000, 17000, 33000, 40000}
+		// very long keys: the hint file (one entry per live key) then spans several 32 KiB blocks
+		lens = []int{9000, 12000, 17000, 25000, 33000, 40000}
 	}
 	seen := map[string]bool{}
 	var ks [][]byte
@@ -199,10 +199,16 @@ func hintCompare(en *Env, e *h.Eng) {
 func mergeTrace(en *Env, cfg h.Cfg, t int) (merges, mok int) {
 	r := en.R
 	nkeys := 3 + r.Intn(6)
+	bigKeys := t%4 == 2
+	if bigKeys {
+		// the index types that keep the key slice they are given, so that a key aliasing a reader buffer shows
+		cfg.Index = []string{"btree", "skiplist"}[(t/4)%2]
+		nkeys = 5 + r.Intn(3)
+	}
 	dir := en.FreshDir()
 	defer en.Drop(dir)
 	var u *h.Keys
-	if t%4 == 2 {
+	if bigKeys {
 		u = mergeKeys(en, nkeys, true)
 	} else if t%2 == 0 {
 		u = mergeKeys(en, nkeys, false)
@@ -264,6 +270,11 @@ func mergeTrace(en *Env, cfg h.Cfg, t int) (merges, mok int) {
 	rounds := 1 + r.Intn(3)
 	for rd := 0; rd < rounds && !e.Dead; rd++ {
 		write(3 + r.Intn(12))
+		if bigKeys {
+			for k := 1; k <= nkeys && !e.Dead; k++ { // every long key is live at the merge
+				e.Put(k, val())
+			}
+		}
 		if r.Intn(4) == 0 && !e.Dead {
 			// restart with another file-size limit before merging: the output may then need
 			// fewer, equally many or more files than the input
@@ -301,6 +312,9 @@ func mergeTrace(en *Env, cfg h.Cfg, t int) (merges, mok int) {
 			nc := e.Cfg
 			if r.Intn(3) == 0 {
 				nc = h.RandCfg(r, []int64{e.Cfg.Limit})
+				if bigKeys {
+					nc.Index = e.Cfg.Index
+				}
 			}
 			if e.Close() != "ok" || e.Open(nc) != "ok" {
 				return
